@@ -76,6 +76,10 @@ func main() {
 		kind := kinds[(i*3+i/len(kinds)+rot)%len(kinds)]
 		cases = append(cases, func(c *lg.Case) { splitCase(c, size, kind, i) })
 	}
+	for i := 0; i < p.N(120, 3000); i++ {
+		i := i
+		cases = append(cases, func(c *lg.Case) { worldSplitCase(c, i) })
+	}
 	// downres: case i covers octant pattern i%256 with solid (i/256 even) or mixed (odd) octants; with >= 512
 	// cases every (pattern, mode) pair is executed at least once.  Sanitizer builds in the quick tier take a
 	// seed-dependent quarter of the pairs.
